@@ -70,6 +70,9 @@ func FilterCar(ctx context.Context, infile, outfile string, cidMap map[cid.Cid]s
 		fmt.Fprintf(os.Stderr, "warning: no roots defined after filtering\n")
 	}
 
+	// The selection is by CID: two selected CIDs that share a multihash (same bytes under two
+	// codecs) must both be kept, so de-duplicate by whole CID rather than by multihash.
+	options = append(options, carv2.UseWholeCIDs(true))
 	bs, err := blockstore.OpenReadWrite(outfile, outRoots, options...)
 	if err != nil {
 		return err
